@@ -201,9 +201,13 @@ def rich_items(repo) -> Dict[str, List[Tuple[str, ast.Call]]]:
     out: Dict[str, List[Tuple[str, ast.Call]]] = {}
     for c in calls_in(f.node):
         if dotted_name(c.func) == 'OutputTableItem' and len(c.args) >= 2:
-            lab = fl.fold_str(c.args[0]) if not isinstance(c.args[0], ast.JoinedStr) else None
-            if lab is None and isinstance(c.args[0], ast.Attribute):
-                lab = fl.resolve_label(norm(c.args[0]))
+            a0 = c.args[0]
+            if isinstance(a0, ast.Name):            # a label held in a local (`label = 'Project IRR'`)
+                from gxstat.inline import enclosing_stmt, inline_sequential
+                a0 = inline_sequential(a0, enclosing_stmt(c))
+            lab = fl.fold_str(a0) if not isinstance(a0, ast.JoinedStr) else None
+            if lab is None and isinstance(a0, ast.Attribute):
+                lab = fl.resolve_label(norm(a0))
             if lab is None:
                 continue
             out.setdefault(lab.strip(), []).append((fl.primary_obj(c.args[1]), c))
